@@ -1,5 +1,10 @@
-"""Known findings (committed file known_findings.json, never written at run time)."""
-import json, os, re
+"""Known findings (committed file known_findings.json, never written at run time).
+
+A violation instance is known only if the Lean monitor attributed it to the cause pattern of a listed
+finding (DESIGN Appendix C): the monitor prints `!monitor <id> [<id> ...]`, or `!monitor NEW ...` for
+anything its patterns do not explain. Every id must be listed for the property, else it is a VIOLATION.
+"""
+import json, os
 ROOT = os.path.dirname(os.path.dirname(os.path.abspath(__file__)))
 
 def _load():
@@ -9,16 +14,13 @@ def _load():
     return json.load(open(p))
 
 def match(pid, d):
-    """d: a disagreement / monitor failure dict. Returns the finding entry it is an instance of, or None."""
-    for k in _load().get("findings", []):
-        if k["property"] != pid:
-            continue
-        if k.get("family") and k["family"] != d.get("family"):
-            continue
-        tag = k.get("impl_tag")
-        if tag and d.get("impl", "").startswith(tag):
-            return k
-    return None
-
-def static_lines(pid):
-    return []
+    ids = d.get("monitor_ids") or []
+    if not ids:
+        return None
+    table = {k["id"]: k for k in _load().get("findings", []) if k["property"] == pid}
+    out = []
+    for i in ids:
+        if i not in table:
+            return None
+        out.append(table[i])
+    return out
